@@ -67,6 +67,7 @@ type FuncCtx struct {
 	ghostNames map[string]*Value
 	entryAlloc string
 	closures   []*closureFrame
+	frameBound string
 }
 
 type callSite struct {
@@ -106,6 +107,12 @@ func (fc *FuncCtx) oblige(st *State, kind, anchor string, pos token.Pos, goal st
 		o.Pos = fmt.Sprintf("%s:%d", p.Filename, p.Line)
 	}
 	e.obls = append(e.obls, o)
+}
+
+// cover records a vacuity probe: the assumptions at this point must not be contradictory
+// (a solver answering unsat for the goal "false" is reported as a contract fault).
+func (fc *FuncCtx) cover(st *State, anchor string, pos token.Pos) {
+	fc.oblige(st, "cover", anchor, pos, "false", nil, "vacuity probe: the assumptions at this point must be satisfiable")
 }
 
 // safety obligation on a Go expression node
@@ -188,10 +195,15 @@ func (e *Engine) verifyFunc(pkg *packages.Package, decl *ast.FuncDecl, profile s
 		e.funcFacts = map[string][]string{}
 	}
 	// the entry heap is well formed: objects that exist at entry only refer to objects that exist at entry
+	wfSeen := map[string]bool{}
 	e.onBaseRefArray = func(arr string) {
 		if fc.entry == nil && fc.entryAlloc == "" {
 			return
 		}
+		if wfSeen[arr] {
+			return
+		}
+		wfSeen[arr] = true
 		e.nfresh++
 		r := smtSym(fmt.Sprintf("r!b%d", e.nfresh))
 		e.funcFacts[fc.name] = append(e.funcFacts[fc.name],
@@ -214,6 +226,7 @@ func (e *Engine) verifyFunc(pkg *packages.Package, decl *ast.FuncDecl, profile s
 	fc.prepare()
 	st := fc.entryState()
 	fc.entry = st.clone()
+	fc.cover(st, "entry", decl.Body.Lbrace)
 	fc.runGhostAt(st, "entry", "", 0, "", decl.Body.Lbrace+1)
 	end := fc.execBlock(decl.Body, st)
 	if end != nil {
@@ -379,12 +392,29 @@ func (fc *FuncCtx) entryState() *State {
 		env := &SpecEnv{e: e, st: st, cf: g.CF, pkg: e.pkgForCF(g.CF)}
 		st.ghost[name] = e.freshValue(env.resolveType(g.Type), "g."+name)
 	}
+	// facts about package-level variables (their initialisers are not executed by the translator)
+	for _, cf := range e.cfiles {
+		if cf.PkgPath != fc.pkg.PkgPath {
+			continue
+		}
+		for _, gi := range cf.GlobalInvs {
+			env := fc.specEnv(st, nil, fc.decl.Body.Lbrace+1, nil)
+			env.cf = cf
+			st.assume(env.evalBool(gi.Expr))
+			e.assumed["package-level variable fact: "+gi.Src] = true
+		}
+	}
 	if fc.contract != nil {
 		for _, gv := range fc.contract.Ghosts {
 			env := fc.specEnv(st, nil, fc.decl.Body.Lbrace+1, nil)
 			sh := env.resolveType(gv.Type)
 			if gv.Init != nil {
-				v := env.eval(gv.Init)
+				var v *Value
+				if isEmptysetCall(gv.Init) {
+					v = e.zeroValue(sh)
+				} else {
+					v = env.eval(gv.Init)
+				}
 				if v == nilValue {
 					v = e.zeroValue(sh)
 				}
@@ -583,7 +613,12 @@ func (fc *FuncCtx) runGhostStmt(st *State, gs *GhostStmt, pos token.Pos, anchor 
 	if !ok {
 		specFail("ghost assignment to undeclared ghost variable %q", gs.Name)
 	}
-	val := env.eval(gs.Value)
+	var val *Value
+	if isEmptysetCall(gs.Value) && gs.Index == nil {
+		val = e.zeroValue(cur.Sh)
+	} else {
+		val = env.eval(gs.Value)
+	}
 	if gs.Index != nil {
 		idx := scalarT(env.eval(gs.Index), gs.Index)
 		if val == nilValue {
@@ -925,8 +960,8 @@ func (fc *FuncCtx) toIface(v *Value, to *Shape) *Value {
 	case KInt, KOpaque:
 		return &Value{Sh: to, L: []string{tag, v.T()}}
 	case KStr:
-		f := e.declFun("box.str", []string{"Str"}, "Int")
-		return &Value{Sh: to, L: []string{tag, app(f, v.T())}}
+		e.ensureBoxStrAxiom()
+		return &Value{Sh: to, L: []string{tag, app("box.str", v.T())}}
 	case KBool:
 		return &Value{Sh: to, L: []string{tag, ite(v.T(), "1", "0")}}
 	case KStruct, KSlice, KUnit:
@@ -1014,6 +1049,43 @@ func (fc *FuncCtx) doReturn(st *State, x *ast.ReturnStmt, vals []*Value) {
 		names := map[string]*Value{}
 		for i, n := range fc.resNames {
 			names[n] = vals[i]
+		}
+		// ghost frame: a ghost global that is not named in the modifies clause must be unchanged
+		if fc.contract.Trusted == "" {
+			mods := map[string]bool{}
+			for _, m := range fc.contract.Modifies {
+				m = strings.TrimSpace(strings.TrimPrefix(strings.TrimSpace(m), "ghost "))
+				mods[m] = true
+			}
+			for _, at := range fc.contract.Ats {
+				for _, gs := range at.Stmts {
+					if gs.Kind == "assign" {
+						mods[gs.Name] = true
+					}
+				}
+			}
+			for _, g := range sortedGhostNames(e.globals) {
+				if mods[g] {
+					continue
+				}
+				cur, ok1 := st.ghost[g]
+				ent, ok2 := fc.entry.ghost[g]
+				if !ok1 || !ok2 {
+					continue
+				}
+				same := true
+				var eqs []string
+				for k := range cur.L {
+					if cur.L[k] != ent.L[k] {
+						same = false
+					}
+					eqs = append(eqs, eq(cur.L[k], ent.L[k]))
+				}
+				if same {
+					continue
+				}
+				fc.oblige(st, "frame-ghost", g+"@"+exit, pos, and(eqs...), nil, "ghost global "+g+" is not in the modifies clause and must be unchanged")
+			}
 		}
 		for i, c := range fc.contract.Ensures {
 			if c.Profile != "" && c.Profile != fc.profile {
@@ -1151,4 +1223,22 @@ func (fc *FuncCtx) evalCommaOk(x ast.Expr, st *State) []*Value {
 	}
 	fc.unsupp(x, "comma-ok form")
 	return nil
+}
+
+func sortedGhostNames(m map[string]*GhostGlobal) []string {
+	out := make([]string, 0, len(m))
+	for k := range m {
+		out = append(out, k)
+	}
+	sort.Strings(out)
+	return out
+}
+
+func isEmptysetCall(x SExpr) bool {
+	c, ok := x.(*SCall)
+	if !ok {
+		return false
+	}
+	id, ok := c.Fun.(*SIdent)
+	return ok && id.Name == "emptyset" && len(c.Args) == 0
 }
